@@ -49,7 +49,7 @@ def check_variant(args):
         cls = type(n).__name__
         c = n.coord
         if c is None:
-            if cls in MUST_HAVE and not (cls == "Decl" and n.name is None):
+            if cls in MUST_HAVE:
                 problems.append("%s without coordinate" % cls)
             continue
         if cls == "Pragma":
